@@ -381,6 +381,12 @@ func c10Specs(tier string) []*clustermc.Spec {
 		mk(&c10Params{Name: fmt.Sprintf("MaxIdleDuration=100ms P=3 N=%d", n), Keys: keys[:2], Depth: idleDepth, Idle: true,
 			Opts: simcluster.Opts{N: n, Partitions: 3, MaxIdle: c10Window}})
 	}
+	// replicated: the backup copy of a key carries no access stamp of its own (PutRaw of the encoded
+	// entry), and reads consult it; the window has to be judged on the owner's stamp
+	mk(&c10Params{Name: "MaxIdleDuration=100ms P=3 N=2 R=2", Keys: keys[:2], Depth: idleDepth, Idle: true,
+		Opts: simcluster.Opts{N: 2, Replicas: 2, WriteQ: 1, ReadQ: 1, Partitions: 3, MaxIdle: c10Window}})
+	mk(&c10Params{Name: "MaxIdleDuration=100ms P=3 N=3 R=2 read-repair", Keys: keys[:2], Depth: idleDepth, Idle: true,
+		Opts: simcluster.Opts{N: 3, Replicas: 2, WriteQ: 1, ReadQ: 2, Partitions: 3, MaxIdle: c10Window, ReadRepair: true}})
 	// the limits given for this one DMap (config.DMaps.Custom) instead of for all DMaps
 	mk(&c10Params{Name: "MaxKeys=2 P=3 LRUSamples=5 N=2 per-DMap-config", Keys: keys, Depth: depth, EntryLen: entryLen,
 		Opts: simcluster.Opts{N: 2, Partitions: 3, LRU: true, MaxKeys: 2, LRUSamples: 5, Custom: "d"}})
